@@ -206,26 +206,50 @@ func cellFromCellBlock(b []byte) (*pb.Cell, uint32, error) {
 			"buffer is too small: expected %d, got %d", int(kvLen)+4, len(b))
 	}
 
+	// the fixed size part of a KeyValue: key length, value length, row length,
+	// family length, timestamp and type
+	const minKVLen = 4 + 4 + 2 + 1 + 8 + 1
+	if kvLen < minKVLen {
+		return nil, 0, fmt.Errorf("KeyValue is too short: expected at least %d, got %d",
+			minKVLen, kvLen)
+	}
+
 	rowKeyLen := binary.BigEndian.Uint32(b[4:8])
 	valueLen := binary.BigEndian.Uint32(b[8:12])
 	keyLen := binary.BigEndian.Uint16(b[12:14])
 	b = b[14:]
 
+	if len(b) < int(keyLen)+1 {
+		return nil, 0, fmt.Errorf("buffer is too small for row: expected %d, got %d",
+			int(keyLen)+1, len(b))
+	}
 	key := b[:keyLen]
 	b = b[keyLen:]
 
 	familyLen := b[0]
 	b = b[1:]
 
+	if len(b) < int(familyLen) {
+		return nil, 0, fmt.Errorf("buffer is too small for family: expected %d, got %d",
+			familyLen, len(b))
+	}
 	family := b[:familyLen]
 	b = b[familyLen:]
 
+	if rowKeyLen < uint32(keyLen)+uint32(familyLen)+2+1+8+1 {
+		return nil, 0, fmt.Errorf("HBase has lied about key length: expected at least %d, got %d",
+			uint32(keyLen)+uint32(familyLen)+2+1+8+1, rowKeyLen)
+	}
 	qualifierLen := rowKeyLen - uint32(keyLen) - uint32(familyLen) - 2 - 1 - 8 - 1
 	if 4 /*rowKeyLen*/ +4 /*valueLen*/ +2 /*keyLen*/ +
 		uint32(keyLen)+1 /*familyLen*/ +uint32(familyLen)+qualifierLen+
 		8 /*timestamp*/ +1 /*cellType*/ +valueLen != kvLen {
 		return nil, 0, fmt.Errorf("HBase has lied about KeyValue length: expected %d, got %d",
 			kvLen, 4+4+2+uint32(keyLen)+1+uint32(familyLen)+qualifierLen+8+1+valueLen)
+	}
+	if len(b) < int(qualifierLen)+8+1+int(valueLen) {
+		return nil, 0, fmt.Errorf("buffer is too small for KeyValue: expected %d, got %d",
+			int(qualifierLen)+8+1+int(valueLen), len(b))
 	}
 	qualifier := b[:qualifierLen]
 	b = b[qualifierLen:]
